@@ -27,8 +27,9 @@
    account / header texts contain no newline; balance: accounts well formed). *)
 From Coq Require Import ZArith List Permutation Sorted.
 From TkModel Require Import Base Dec Acct Txn Balance Register Round Price ReportText T05_report.
-From TkSpec Require Import Balance_spec Register_spec Round_spec Price_spec ReportText_spec T05_spec.
-From TkProofs Require Import T05_proofs.
+From TkModel Require Import Time Group.
+From TkSpec Require Import Balance_spec Register_spec Round_spec Price_spec ReportText_spec T05_spec T05_grp_spec.
+From TkProofs Require Import T05_proofs T05_grp_proofs.
 Local Open Scope Z_scope.
 
 (* ---------------------------------------------------------------- the conversion *)
@@ -124,6 +125,19 @@ Theorem T05_balance_figures : forall known ord names ps rep title sc,
   bal_text_shows title sc ps (listed_keys names ps) (bal_txt_report title sc (b_rows rep) (b_deltas rep)).
 Proof. exact bal_report_text_shows. Qed.
 Print Assumptions T05_balance_figures.
+
+(* ---------------------------------------------------------------- balance groups *)
+(* the balance-group text of the model satisfies balgrp_text_spec: after the title lines one block per period of the
+   report zone, ascending by period key, each key once; a period has a block exactly when the selector lists a row of
+   it; the block is a balance text titled by the period key whose figure fields read back as spec_own / spec_tree of
+   the CONVERTED postings of exactly the transactions of that period (C13_partition: the periods partition the set),
+   rounded half away from zero; its delta lines likewise.  gb / tzoff: any group-by key and any report zone *)
+Theorem T05_balgrp_shown : forall title sc gb tzoff lk rc f names input text,
+  (sc_min sc <= sc_max sc)%N -> distinct_keys f -> Forall (txn_dom lk rc f) input -> bal_names_in rc input ->
+  conv_balgrp_text title sc gb tzoff lk rc (load_db f) names input = Some text ->
+  balgrp_text_spec title sc gb tzoff lk rc f names input text.
+Proof. exact conv_balgrp_text_shows. Qed.
+Print Assumptions T05_balgrp_shown.
 
 (* ---------------------------------------------------------------- unconverted rows *)
 (* a posting without commodity, already in the report commodity, or without applicable price (or any
